@@ -79,6 +79,9 @@ func sliceProbes() {
 	try("make(huge)", func() { r := make([]int, huge); println(len(r)) })
 	try("make(hugecap)", func() { r := make([]int, 1, huge); println(len(r)) })
 	try("make(chan -1)", func() { n := -1 + sink; r := make(chan int, n); println(cap(r)) })
+	try("make(chan oversize)", func() { n := 1<<62 + sink; r := make(chan [1 << 15]byte, n); println(cap(r)) })
+	try("make(chan 0 computed)", func() { n := sink - sink; r := make(chan int, n); println(cap(r)) })
+	try("make(chan struct{} huge)", func() { n := 1<<40 + sink; r := make(chan struct{}, n); println(cap(r)) })
 }
 
 func order(name string, f func()) {
